@@ -15,6 +15,7 @@ from sa import yamlmini
 from sa.index import get_index
 
 CV = "mpf/core/config_validator.py"
+UT = "mpf/core/utility_functions.py"
 UF = "mpf/core/utility_functions.py"
 K = "ConfigValidator"
 SI_MS = {"MS": 1, "MSEC": 1, "S": 1000, "SEC": 1000, "M": 60000, "H": 3600000, "D": 86400000}
@@ -282,6 +283,14 @@ def check(chk):
     loops = [h for h in cfg.nodes if h.kind == "loop"]
     chk.ob("DOM-24", "all keys of the source are examined", bool(loops) and src(loops[0].ast.iter) == "config", g.where(), construct=g.ident,
            text="loop over config")
+    # ... every one of them: the only way out of the key loop is its end or the error
+    for h in loops:
+        for n in cfg.nodes_where(lambda n: n.kind == "stmt" and isinstance(n.ast, (ast.Return, ast.Break))):
+            if any(x is n.ast for st in h.ast.body for x in ast.walk(st)):
+                chk.ob("DOM-24", "the scan for unknown keys never stops early (a known key does not end it)", False, g.where(n.ast),
+                       detail="`%s` inside the key loop: keys after this one are never looked at" % short(n.ast, 30), construct=g.ident,
+                       text="early exit from the unknown-key scan")
+        chk.ob("DOM-24", "the unknown-key scan runs to the end of the keys", True, g.where(h.ast), nontrivial=False)
     # a provided key is never dropped: every key of the spec present in source is validated and stored back
     f = repo.func(CV, K + "._validate_config")
     cfg = f.cfg()
@@ -439,6 +448,7 @@ def check(chk):
     chk.ob("TABLE-3", "a number without unit means seconds for secs-typed settings", ok, g.where(), construct=g.ident, text="default unit s")
 
     _total_validators(chk, repo, cv)
+    _list_helpers(chk, repo)
 
     # ---------------------------------------------------------- SIB-6
     for tok, conv in (("ms", "string_to_ms"), ("template_ms", "string_to_ms"), ("secs", "string_to_secs"), ("template_secs", "string_to_secs")):
@@ -506,6 +516,38 @@ def _total_validators(chk, repo, cv):
                    f.where(b_.ast), path=cfg.fmt_path(w, CV) if w else None, construct=f.ident, text="template built from unchecked value in " + name)
 
 
+def _list_helpers(chk, repo):
+    """LIST-12: the list helpers answer the empty list only for an absent value (None / the empty string) -- a bare
+    truthiness test would also swallow 0, 0.0 and False, i.e. silently drop a provided value."""
+    for name in ("string_to_list", "string_to_event_list", "string_to_lowercase_list", "string_to_set"):
+        f = repo.try_func(UT, "Util." + name)
+        if f is None:
+            continue
+        chk.analysed(f)
+        cfg = f.cfg()
+        params = [p_ for p_ in f.params() if p_ not in ("self", "cls")]
+        if not params:
+            continue
+        p0 = params[0]
+        for r in cfg.nodes_where(lambda n: n.kind == "stmt" and isinstance(n.ast, ast.Return) and n.ast.value is not None):
+            v = r.ast.value
+            empty = (isinstance(v, (ast.List, ast.Tuple, ast.Set)) and not v.elts) or (isinstance(v, ast.Call) and dotted(v.func) in ("list", "set") and not v.args)
+            if not empty:
+                continue
+            g = cfg.guards_at(r.id)
+            absent = g.get("%s is None" % p0) is True or g.get("%s == ''" % p0) is True or g.get('%s == ""' % p0) is True
+            chk.ob("LIST-12", "Util.%s answers an empty list only for None / the empty string" % name, absent, f.where(r.ast),
+                   detail="guards %s: a truthiness test also swallows 0 and False" % sorted(g.items()), construct=f.ident,
+                   text="empty result guard in " + name)
+        nums = [r for r in cfg.nodes_where(lambda n: n.kind == "stmt" and isinstance(n.ast, ast.Return) and isinstance(n.ast.value, ast.List)
+                                          and len(n.ast.value.elts) == 1 and src(n.ast.value.elts[0]) == p0)]
+        for r in nums:
+            g = cfg.guards_at(r.id)
+            chk.ob("LIST-12", "Util.%s wraps a single number into a one-element list" % name, any("isinstance(%s" % p0 in k and v_ is True for k, v_ in g.items()),
+                   f.where(r.ast), construct=f.ident, text="number wrapped in " + name)
+    chk.floor("LIST-12", 3)
+
+
 def _fold_mult(e):
     """Product of the numeric constants multiplied onto the parsed number in a return expression."""
     tot = 1
@@ -564,6 +606,8 @@ def battery():
         M("twin: new spec entry", Y, "    level_x: single|int|0", "    level_x: single|int|0\n    level_w: single|float(0,1)|0.5", None),
         M("unconvertible bool accepted as None", CV, "        raise self.validation_error(item, validation_failure_info, \"Cannot convert value to boolean.\", 13)\n", "", "TOTAL-12"),
         M("template_ms accepts any type", CV, "        self._assert_int_float_template(item, validation_failure_info)\n\n        # try to convert to int. if we fail it will be a template", "        # try to convert to int. if we fail it will be a template", "SIB-6"),
+        M("list helper swallows 0", "mpf/core/utility_functions.py", "        if isinstance(string, str):\n            # empty string is an empty list\n            if string == '':\n                return []\n\n            # Convert commas to spaces", "        if not string:\n            return []\n        if isinstance(string, str):\n            # Convert commas to spaces", "LIST-12"),
+        M("unknown-key scan stops at the first known key", CV, "                if not isinstance(k, dict) and k not in spec and k[0] != '_':\n", "                if isinstance(k, dict) or k in spec or k[0] == '_':\n                    return\n                if True:\n", "DOM-24"),
     ]
 
 
